@@ -125,10 +125,19 @@ Definition cheb_line (raw : line_rule) : line_rule :=
   let s := fsum (map snd w1) /! f2 in
   map (fun p => (fst p, snd p /! s)) w1.
 
-(* _cylinder_quadrature_from_product: ((x, y, z), weight), disk-major order *)
+(* `disk_weights * (np.pi / disk_weights.sum())`: the tabulated disk weights (8 digits for disk55 and
+   disk256_cheb) normalised to the area of the unit disk *)
+Definition norm_disk (disk : disk_rule) : disk_rule :=
+  let k := fpi O /! fsum (map (fun d : F * F * F => snd d) disk) in
+  map (fun d : F * F * F => (fst d, snd d *! k)) disk.
+
+(* the product of a disk rule and a line rule: ((x, y, z), weight), disk-major order *)
 Definition product_rule (disk : disk_rule) (line : line_rule) : list (vec * F) :=
   flat_map (fun d => let '(x, y, dw) := d in
                      map (fun l => (mkvec x y (fst l), dw *! snd l)) line) disk.
+(* _cylinder_quadrature_from_product *)
+Definition cyl_product_rule (disk : disk_rule) (line : line_rule) : list (vec * F) :=
+  product_rule (norm_disk disk) line.
 
 Definition rot_angle (md : angle_mode) (un c : F) : F :=
   match md with AngAsin => fasin O un | AngAtan2 => fatan2 O un c end.
